@@ -298,7 +298,10 @@ def run_sim(case, acc):
     exc = None
     try:
         with simnet.Installed(w):
-            ws = env.WebSocket('ws://example.com/')
+            # "for whatever reason" an attempt ends - and whatever the application is called (any text is an agent)
+            agents = (None, 'Sensor d\u2019atelier/2.1', '\u76e3\u8996\u30af\u30e9\u30a4\u30a2\u30f3\u30c8/1.0', 'caf\xe9-client/3')
+            agent = agents[case['rseed'] % len(agents)]
+            ws = env.WebSocket('ws://example.com/') if agent is None else env.WebSocket('ws://example.com/', agent=agent)
             real_connect = ws.connect
 
             def recording_connect(*a, **kw):
